@@ -7,6 +7,12 @@ import random
 from harness.common import Ck, coq_Z_list, coq_list
 from translate import c08_sites
 
+MANIFEST = dict(
+    technique='Rocq proof (allocator freshness/termination, lifecycle NoDup invariant by induction over histories) + ast site census + vm_compute correspondence',
+    text='Theorems in Props/C08.v: the IDMan scan terminates and returns a positive unused ID keeping the search_pos invariant; for every history of create/remove/re-add/gc the IDs of existing objects are pairwise distinct and positive provided IDs are released only by destructors; fixup indexes stay distinct and positive. The premises (release sites, ID stores, fixup acceptance test) are regenerated from vmf.py/instancing.py on every run and kernel-checked; IDMan, EntityFixup and the entity lifecycle are compared with the model on random operation sequences; histories over all six ID kinds are searched on real VMF objects.',
+    note='Trusted: Coq kernel + vm_compute, translate/c08_sites.py, hand models SM/IdMan.v and SM/IdLife.v (tied by differential runs), CPython gc/refcount for __del__ timing. Nav-node IDs (nodeid keyvalue) are searched, not modelled; their known duplicate defect is in known_findings.json. Maps opened with preserve_ids=True are exempt by definition.',
+)
+
 IMPORTS = ['SV.SM.IdMan', 'SV.SM.IdLife', 'SV.Gen.IdSites_gen', 'SV.Props.C08', 'Coq.ZArith.ZArith', 'Coq.Lists.List']
 PRE = '''Import ListNotations. Open Scope Z_scope.
 Fixpoint zl_eqb (a b : list Z) : bool := match a, b with [] , [] => true | x :: a', y :: b' => Z.eqb x y && zl_eqb a' b' | _, _ => false end.
